@@ -8,8 +8,21 @@ parents, re-declare them, or add new ones.
 Oracle (implementation alone): walk the real merged tree (`Builder().build()`, dumped through the
 public child API) for RequiredNode instances; `Config(...)` must raise the 'required nodes have not
 been set' ValueError iff there is one, the message must list exactly their paths (each once), and
-no recording function may have run."""
+no recording function may have run.
+
+Histories (about a third of the generated cases): the documents are not built once from a fresh
+builder but fed to ONE root object step by step - after every document marked `cut` the tree is
+built and a Config is constructed from it (successfully or not), then the next documents are added
+to the same `Builder` (mode 'builder': `add_source` + `build()` merge them into the old root) or
+merged in place into the tree the earlier Config was made from (mode 'source': `cfg.ayns.source`,
+`root.ayns.merge(stage)`), and the config is constructed again. Later stages of a history fill in
+all remaining placeholders before a cut more often, and turn plain values / filled-in placeholders
+back into placeholders after one. The oracle applies the same rule at EVERY construction of the
+history: the tree that is handed to `Config(...)` is walked for RequiredNode instances immediately
+before the call; error iff one is there, all paths, nothing evaluated. The model answers for the
+document prefix of each construction and is compared with it."""
 from props.mergefam import *
+from evalrun import WorldImpl, EvalContext, conv_val
 
 WORLD = GE.WORLD
 KEYS = ['a', 'b', 'c', 'd', 'e', 'x', 'y']
@@ -56,6 +69,20 @@ def placeholder_paths(raw, pre=()):
     return out
 
 
+def plain_leaf_paths(raw, pre=()):
+    """paths of the untagged scalar leaves (values a later stage may turn into placeholders)"""
+    out = []
+    if 's' in raw:
+        return [] if raw.get('t') else [pre]
+    if 'm' in raw:
+        for k, c in raw['m']:
+            out += plain_leaf_paths(c, pre + (sc_py(k),))
+    elif 'q' in raw:
+        for i, c in enumerate(raw['q']):
+            out += plain_leaf_paths(c, pre + (i,))
+    return out
+
+
 def build_stage(writes):
     """mapping document writing `leaf` at each path (prefix conflicts: the shorter path wins)"""
     writes = sorted(writes, key=lambda w: len(w[0]))
@@ -77,9 +104,17 @@ def build_stage(writes):
     return build(trie)
 
 
-def gen_case(rng):
+def gen_case(rng, hist=False):
+    """hist: the case is a history - some documents are followed by a construction of the config (`cut`)"""
     depth = rng.choice([1, 2, 2, 3])
     p_req = rng.choice([0.0, 0.08, 0.15, 0.15, 0.3])
+    n_later = rng.choice([0, 0, 1, 1, 2, 3])
+    cuts = set()
+    if hist:
+        n_later = rng.choice([1, 1, 2, 2, 3])
+        cuts = {i for i in range(n_later) if rng.random() < 0.5} or {rng.randrange(n_later)}
+        if 0 in cuts and rng.random() < 0.5:
+            p_req = 0.0                                    # the first document alone is complete
     keys = rng.sample(KEYS, rng.choice([1, 2, 3, 4, 5]))
     items = [(k, gen_tree(rng, depth, p_req)) for k in keys]
     # recording nodes that would run if anything were evaluated
@@ -91,12 +126,17 @@ def gen_case(rng):
     doc0 = M(items)
     docs = [{'raw': doc0}]
     ps = placeholder_paths(doc0)
+    values = plain_leaf_paths(doc0)      # plain values and filled-in placeholders: candidates for becoming placeholders
     actions = []
-    for _ in range(rng.choice([0, 0, 1, 1, 2, 3])):
+    for s in range(1, n_later + 1):
         writes = []
         live = list(ps)
+        fill_all = s in cuts and rng.random() < 0.6        # the stage before a construction completes the config
+        after_cut = any(c < s for c in cuts)
         for p in live:
             r = rng.random()
+            if fill_all:
+                r = 0.40 + 0.30 * r
             if r < 0.40:
                 continue                                   # left in place
             if r < 0.70:
@@ -117,17 +157,79 @@ def gen_case(rng):
             else:
                 writes.append((p, M([('m', S(1)), ('r', Sempty('required'))]) if rng.random() < 0.3 else Q([S(1)])))
                 actions.append('container')
-        if rng.random() < 0.25:
+        if not fill_all and rng.random() < (0.5 if after_cut else 0.25):
             writes.append(((rng.choice(KEYS), 'new'), Sempty('required')))       # a placeholder added late
             actions.append('add')
+        if not fill_all and values and rng.random() < (0.5 if after_cut else 0.15):
+            for p in rng.sample(values, min(len(values), rng.choice([1, 1, 2]))):
+                writes.append((p, Sempty('required')))                           # a value is turned (back) into a placeholder
+            actions.append('unset')
         if not writes:
             writes.append((('zz',), S(1)))
         stage = build_stage(writes)
         docs.append({'raw': stage})
+        values = [p for p in values if not any(w[0] == p[:len(w[0])] for w in writes)] + \
+                 [w[0] + q for w in writes for q in ([()] if 's' in w[1] and not w[1].get('t') else plain_leaf_paths(w[1]))]
         # placeholders as far as the generator can tell (the oracle reads the real merged tree instead)
         ps = [p for p in ps if not any(w[0] == p[:len(w[0])] for w in writes)] + \
              [w[0] + q for w in writes for q in placeholder_paths(w[1])]
-    return {'docs': docs, 'actions': sorted(set(actions))}
+    case = {'docs': docs, 'actions': sorted(set(actions))}
+    if hist:
+        for i in cuts:
+            docs[i]['cut'] = True
+        case['hist'] = rng.choice(['builder', 'builder', 'source'])
+    return case
+
+
+def cut_points(docs):
+    """numbers of leading documents after which the config is constructed (the last one always)"""
+    return [i + 1 for i, d in enumerate(docs) if d.get('cut') and i + 1 < len(docs)] + [len(docs)]
+
+
+def plain_docs(docs):
+    return [{k: v for k, v in d.items() if k != 'cut'} for d in docs]
+
+
+def impl_history(docs, world, mode, style='flow', md_style=0, qs=0):
+    """the case as a history on one root object: at every cut the tree is built, dumped, and a Config is constructed
+    from it; further documents go to the same Builder ('builder') or are merged in place into the tree the
+    last Config was made from ('source'). Returns one {'after', 'tree', 'cfg'} per construction."""
+    points = []
+    with WorldImpl(world) as w:
+        b, root = Builder(), None
+        cuts = cut_points(docs)
+        try:
+            for i, d in enumerate(docs):
+                text = render_doc(d['raw'], style, md_style, qs)
+                if mode == 'source' and root is not None:
+                    sb = Builder()
+                    sb.add_source(text, raw_yaml=True, filename=d.get('src'), safe=d.get('safe'))
+                    sb.preprocess()
+                    for st in sb.stages:
+                        root = root.ayns.merge(st)
+                else:
+                    b.add_source(text, raw_yaml=True, filename=d.get('src'), safe=d.get('safe'))
+                if i + 1 not in cuts:
+                    continue
+                if mode != 'source' or root is None:
+                    root = b.build()
+                pt = {'after': i + 1, 'tree': {'ok': None if root is None else dump_node(root)}}
+                del w.log[:]
+                try:
+                    cfg = Config(root, eval_ctx=EvalContext(eval_symbols=w.syms))
+                    pt['cfg'] = {'ok': renumber(conv_val(cfg, w, {})), 'log': list(w.log)}
+                    if mode == 'source' and root is not None:
+                        root = cfg.ayns.source
+                except RecursionError:
+                    pt['cfg'] = {'err': 'recursion', 'log': list(w.log)}
+                except Exception as e:  # noqa
+                    pt['cfg'] = dict(classify_error(e), log=list(w.log))
+                points.append(pt)
+        except RecursionError:
+            points.append({'after': i + 1, 'tree': {'err': 'recursion'}, 'cfg': {'err': 'recursion', 'log': []}})
+        except Exception as e:  # noqa   building failed: the history ends here
+            points.append({'after': i + 1, 'tree': classify_error(e), 'cfg': dict(classify_error(e), log=[])})
+    return points
 
 
 def required_in_dump(d, pre=()):
@@ -147,14 +249,28 @@ class C14(MergeFamProp):
     RULE = ('a document with !required placeholders at random positions (top level, nested mappings, lists, arguments of '
             '!call/!bind nodes given as mappings and lists; 0-30% of the leaves) next to recording !call / !eval nodes, followed '
             'by 0-3 stages that overwrite subsets of the placeholders with values, re-declare them, replace or delete their '
-            'parent containers, turn them into containers holding new placeholders, or add placeholders; flow or block '
-            'style; distinct by SHA-1 of the case')
-    ASSUMPTIONS = ['the merged tree is read through the public child API (ayns.named_children) of the real nodes']
+            'parent containers, turn them into containers holding new placeholders, add placeholders, or turn plain values / '
+            'filled-in placeholders (back) into placeholders; flow or block style. 35% of the cases are HISTORIES on one root '
+            'object: after each document marked `cut` (each non-final one with p=1/2, at least one) the tree is built and a '
+            'Config is constructed, then the remaining documents are added to the same Builder and built again (2/3) or merged '
+            'in place into cfg.ayns.source (1/3) and the config is constructed again; in a history the stage before a cut fills '
+            'every open placeholder with p=0.6, the first document is complete with p=1/2 when a cut follows it, and stages '
+            'after a cut add / re-open placeholders with p=1/2 each; the rule is checked at every construction; distinct by '
+            'SHA-1 of the case')
+    ASSUMPTIONS = ['the merged tree is read through the public child API (ayns.named_children) of the real nodes',
+                   'in a history the tree is read immediately before each Config(...) call, from the object that is passed to it']
+    P_HIST = 0.35
 
     def corpus(self):
         D = lambda *raws: {'docs': [{'raw': r} for r in raws], 'style': ['flow', 0, 0], 'actions': ['corpus']}
         R = lambda: Sempty('required')
         call = lambda f, items, kind='call': M(items, tag={'k': kind, 'f': f})
+        def H(mode, raws, cuts):
+            c = D(*raws)
+            for i in cuts:
+                c['docs'][i]['cut'] = True
+            c['hist'] = mode
+            return c
         return [
             D(M([('a', R()), ('b', M([('x', S(1)), ('y', R())])), ('c', Q([S(1), R()])),
                  ('d', call('rec.f', [(0, R()), ('p', S(2))])), ('k', call('rec.g', [(0, S(1))]))])),
@@ -164,19 +280,76 @@ class C14(MergeFamProp):
             D(M([('a', S(1))]), M([('a', R())])),
             D(M([])),
             D(M([('c', Q([R(), R()]))]), M([('c', M([(0, S(1))]))])),
+            # histories: a complete tree is made into a Config, then a placeholder enters the same root object
+            H('builder', [M([('k', call('rec.f', [(0, S(1))]))]), M([('a', R())])], [0]),
+            H('source', [M([('k', call('rec.f', [(0, S(1))]))]), M([('a', R())])], [0]),
+            H('builder', [M([('a', R()), ('k', call('rec.f', [(0, S(1))]))]), M([('a', S(5))]),
+                          M([('a', R()), ('b', M([('y', R())]))])], [0, 1]),
+            H('source', [M([('a', S(1)), ('t', Stext('T(S1)', 'eval'))]), M([('a', R())]), M([('a', S(2))])], [0, 1]),
         ]
 
     def gen_cases(self, rng, n, tier):
         out = []
         for i in range(n):
-            c = gen_case(rng)
+            c = gen_case(rng, hist=rng.random() < self.P_HIST)
             st = self.STYLES[rng.randrange(len(self.STYLES))] if rng.random() < 0.4 else self.STYLES[0]
             c['style'] = list(st)
             out.append(c)
         return out
 
+    def impl(self, case):
+        st = case.get('style', ['flow', 0, 0])
+        # the single build of all documents from a fresh builder (tree and config from one build: a history without cuts)
+        fresh = impl_history(plain_docs(case['docs']), self.WORLD, 'builder', *st)[-1]
+        io = {'tree': fresh['tree'], 'cfg': fresh['cfg']}
+        if case.get('hist'):
+            io['hist'] = impl_history(case['docs'], self.WORLD, case['hist'], *st)
+        return io
+
+    def model_requests(self, case):
+        docs = plain_docs(case['docs'])
+        reqs = [{'op': 'merge', 'docs': docs}, {'op': 'config', 'docs': docs, 'world': self.WORLD}]
+        if case.get('hist'):
+            for k in cut_points(case['docs'])[:-1]:
+                reqs += [{'op': 'merge', 'docs': docs[:k]}, {'op': 'config', 'docs': docs[:k], 'world': self.WORLD}]
+        return reqs
+
+    def model_obs(self, case, answers):
+        mo = {'tree': answers[0], 'cfg': answers[1]}
+        if case.get('hist'):
+            ks = cut_points(case['docs'])
+            mo['hist'] = {k: {'tree': answers[2 + 2 * j], 'cfg': answers[3 + 2 * j]} for j, k in enumerate(ks[:-1])}
+            mo['hist'][ks[-1]] = {'tree': answers[0], 'cfg': answers[1]}
+        return mo
+
+    def compare(self, case, io, mo):
+        d = super().compare(case, io, mo)
+        if d is not None or not case.get('hist'):
+            return d
+        # every construction of the history against the model's answer for the document prefix it has seen
+        for pt in io['hist']:
+            m = mo['hist'].get(pt['after'])
+            if m is None:
+                continue
+            d = super().compare(case, pt, m)
+            if d == 'SKIP':
+                return d
+            if d is not None:
+                return d if d.startswith('KNOWN:') else f"history ({case['hist']}), construction after document {pt['after']}: {d}"
+        return None
+
     def oracle(self, case, io, ans):
-        tree, cfg = io['tree'], io['cfg']
+        d = self.rule(io['tree'], io['cfg'])
+        if d is None:
+            for pt in io.get('hist', []):
+                d = self.rule(pt['tree'], pt['cfg'])
+                if d is not None:
+                    return (f"history ({case['hist']}: the same root object is built and made into a Config after documents "
+                            f"{cut_points(case['docs'])}), construction after document {pt['after']}: {d}")
+        return d
+
+    @staticmethod
+    def rule(tree, cfg):
         if 'ok' not in tree:
             return None                       # the merge itself failed: there is no merged tree
         root = tree['ok']
@@ -186,7 +359,8 @@ class C14(MergeFamProp):
         is_req = cfg.get('err') == 'required'
         if expected and not is_req:
             return (f"the merged tree holds placeholders at {expected} but constructing the config gave "
-                    f"{json.dumps({k: v for k, v in cfg.items() if k != 'log'})[:200]}")
+                    f"{json.dumps({k: v for k, v in cfg.items() if k != 'log'})[:200]}"
+                    + (f"; evaluated on the way: {cfg['log']}" if cfg.get('log') else ''))
         if not expected and is_req:
             return f"no placeholder remains in the merged tree but the config reports {cfg.get('paths')}"
         if is_req:
@@ -211,7 +385,39 @@ class C14(MergeFamProp):
         else:
             f.append('merge:' + str(tree.get('err')))
         f.append('result:' + str(cfg.get('err', 'ok')))
+        if case.get('hist'):
+            pts = io.get('hist', [])
+            f.append('history:' + case['hist'])
+            f.append(f'history:constructions={len(pts)}')
+            seq = ['ok' if 'ok' in pt['cfg'] else str(pt['cfg'].get('err')) for pt in pts]
+            for a, b in zip(seq, seq[1:]):
+                f.append(f'history:{a}->{b}')
+            if pts and first_diff(pts[-1]['tree'], io.get('tree')) is not None:
+                f.append('history:final-tree-differs-from-fresh-build')
         return f
+
+    def shrink(self, case):
+        yield from super().shrink(case)
+        if case.get('hist'):
+            docs = case['docs']
+            for i, d in enumerate(docs):
+                if d.get('cut'):
+                    yield dict(case, docs=docs[:i] + [{k: v for k, v in d.items() if k != 'cut'}] + docs[i + 1:])
+            if case['hist'] != 'builder':
+                yield dict(case, hist='builder')
+
+    def render(self, case):
+        out = super().render(dict(case, docs=plain_docs(case['docs'])))
+        if not case.get('hist'):
+            return out
+        how = {'builder': 'added to the same Builder, which is built again',
+               'source': 'merged in place into the tree of the previous Config (cfg.ayns.source)'}[case['hist']]
+        res = []
+        for i, line in enumerate(out):
+            res.append(line if i == 0 or not any(d.get('cut') for d in case['docs'][:i]) else f'[{how}] {line}')
+            if case['docs'][i].get('cut') or i == len(out) - 1:
+                res.append('  -> Config(...) is constructed from the tree built so far')
+        return res
 
     @staticmethod
     def _parent_kind(root, p):
@@ -221,7 +427,7 @@ class C14(MergeFamProp):
         return d['k']
 
     def nontrivial(self, case, io):
-        return any(placeholder_paths(d['raw']) for d in case['docs'])
+        return any(placeholder_paths(d['raw']) for d in case['docs'])   # (a history and the single build of the same documents are different cases: `cut`, `hist` are part of the digest)
 
 
 PROP = C14()
